@@ -5,7 +5,9 @@ use std::time::Duration;
 
 mod common;
 mod engines;
+mod stack;
 mod c03;
+mod c04;
 mod c05;
 mod c06;
 mod c07;
@@ -65,6 +67,7 @@ fn main() {
       mc_core::world::start_watchdog(total, format!("{} {}", prop, tier.name()));
       let report: Report = match prop.as_str() {
         "C03" => c03::run(tier),
+        "C04" => c04::run(tier),
         "C05" => c05::run(tier),
         "C06" => c06::run(tier),
         "C07" => c07::run(tier),
@@ -93,6 +96,7 @@ fn main() {
       let sub = v["sub"].as_str().unwrap_or("").to_string();
       let res = match prop.as_str() {
         "C03" => c03::replay(&sub, &v["witness"]),
+        "C04" => c04::replay(&sub, &v["witness"]),
         "C05" => c05::replay(&sub, &v["witness"]),
         "C06" => c06::replay(&sub, &v["witness"]),
         "C07" => c07::replay(&sub, &v["witness"]),
